@@ -287,8 +287,7 @@ def _str_label(report, got, exp, what, op):
     if exp == "" and got == "None":
         report("C07:empty-category-label", "%s: the empty-string label was supplied, the read API reports 'None'" % what)
         return
-    cls = "whitespace" if exp.strip() == "" else "text"
-    report("C07:categories:label:str:%s:%s" % (cls, op), "%s: label %r was supplied, %r is reported" % (what, exp[:60], got[:60]))
+    report("C07:categories:label:str:%s" % op, "%s: label %r was supplied, %r is reported" % (what, exp[:60], got[:60]))
 
 
 def check_categories(plot, desc, date1904, op, view, report):
@@ -533,7 +532,7 @@ def _new_chart(case):
         with core.sut("C07:insert_chart"):
             gf = ph.insert_chart(ct, cd)
             chart = gf.chart
-        return prs, chart, ct, "insert"
+        return prs, chart, ct, "add"      # same writer as add_chart: one call-site class in finding keys
     prs = Presentation()
     slide = prs.slides.add_slide(prs.slide_layouts[6])
     with core.sut("C07:add_chart"):
@@ -555,7 +554,7 @@ def _observe(chart, desc, baseline, idx_ok, op, report, requested_type=None):
     root = etree.fromstring(blob)
     recs = check_valid(blob, root, baseline, op, report)
     if (desc is not None and requested_type is not None and requested_type.name in ("PIE", "PIE_EXPLODED")
-            and op in ("add", "insert") and len(desc["series"]) > 1 and len(x_all_sers(root)) == 1):
+            and op == "add" and len(desc["series"]) > 1 and len(x_all_sers(root)) == 1):
         report("C07:pie-extra-series-dropped", "%d series supplied to a new %s chart, only the first is written"
                % (len(desc["series"]), requested_type.name))
         desc = dict(desc, series=desc["series"][:1])     # go on with what a one-series pie must report
